@@ -505,3 +505,53 @@ Proof.
   - unfold call_fn. rsimpl. rewrite T2. rsimpl. reflexivity.
 Qed.
 
+
+(* ---------- alloc_try_with / try_alloc_try_with: what is saved on entry; on an Err from the initialiser
+   the two tests and the two rewind targets.  The current footer is a pointer here (address and
+   pointee), because the methods compare footers by address ---------- *)
+Definition self_ptr (foot start ptr : N) : env :=
+  [("self", VRec [("current_chunk_footer", VPtr foot (VRec [("ptr", VN ptr); ("data", VN start)]))])].
+Definition saved_env (res rfoot rstart rptr0 rptr : N) : env :=
+  [("inner_result_ptr", VN res);
+   ("rewind_footer", VPtr rfoot (VRec [("ptr", VN rptr0); ("data", VN rstart)]));
+   ("rewind_ptr", VN rptr)].
+
+Ltac psimpl :=
+  cbv beta iota zeta delta
+    [call_fn eval lookup bind finish meth0 meth1 fn_params fn_body src_fns cenv given_consts self_ptr saved_env
+     String.eqb Ascii.eqb Bool.eqb List.app List.combine List.length
+     Datatypes.app Datatypes.length List.rev Nat.eqb FUEL_SEM fst snd].
+
+Lemma src_try_with_entry_ok m foot start ptr f :
+  let en := List.app (self_ptr foot start ptr) (cenv m) in
+  call_fn src_fns en "atw_saved_footer" [f] = Ret (VPtr foot (VRec [("ptr", VN ptr); ("data", VN start)])) /\
+  call_fn src_fns en "atw_saved_ptr" [f] = Ret (VN ptr) /\
+  call_fn src_fns en "tatw_saved_footer" [f] = Ret (VPtr foot (VRec [("ptr", VN ptr); ("data", VN start)])) /\
+  call_fn src_fns en "tatw_saved_ptr" [f] = Ret (VN ptr).
+Proof.
+  intros en. unfold en. repeat match goal with |- _ /\ _ => split end; unfold call_fn; psimpl; reflexivity.
+Qed.
+
+Lemma src_try_with_exit_ok m foot start ptr res rfoot rstart rptr0 rptr f : pow2 m -> m < W -> foot < W ->
+  let en := List.app (saved_env res rfoot rstart rptr0 rptr) (List.app (self_ptr foot start ptr) (cenv m)) in
+  call_fn src_fns en "atw_is_last" [f] = Ret (VB (ptr =? res)) /\
+  call_fn src_fns en "atw_same_chunk" [f] = Ret (VB (foot =? rfoot)) /\
+  call_fn src_fns en "atw_rewind_same_chunk" [f] = Ret (VN rptr) /\
+  call_fn src_fns en "atw_rewind_new_chunk" [f] = Ret (VN (rdown foot m)) /\
+  call_fn src_fns en "tatw_is_last" [f] = Ret (VB (ptr =? res)) /\
+  call_fn src_fns en "tatw_same_chunk" [f] = Ret (VB (foot =? rfoot)) /\
+  call_fn src_fns en "tatw_rewind_same_chunk" [f] = Ret (VN rptr) /\
+  call_fn src_fns en "tatw_rewind_new_chunk" [f] = Ret (VN (rdown foot m)).
+Proof.
+  intros Hm Hmw Hf en. unfold en. pose proof (pow2_pos _ Hm) as Hm0.
+  assert (T3 : (1 <=? m) = true) by (apply N.leb_le; lia).
+  assert (R : wsub foot (N.land foot (m - 1)) = rdown foot m).
+  { change (N.land foot (m - 1)) with (low_mask foot m). rewrite mask_low by exact Hm.
+    unfold wsub. rewrite rdown_sub_mod by lia.
+    assert (Hmod : foot mod m <= foot) by (apply N.mod_le; lia).
+    generalize dependent (foot mod m). intros r Hr.
+    replace (foot + W - r) with ((foot - r) + 1 * W) by lia.
+    rewrite N.mod_add by (unfold W; lia). apply N.mod_small. lia. }
+  repeat match goal with |- _ /\ _ => split end; unfold call_fn; psimpl; try reflexivity;
+    cbv beta iota delta [arith]; rewrite ?T3; psimpl; rewrite R; reflexivity.
+Qed.
